@@ -134,7 +134,7 @@ def make_events(rng, n_mols, tier, cfg, corpus=None):
             rng.shuffle(names)
             ev = [['load', i]]
             ev += [['obs', i, n, 'first'] for n in names]
-            ev += [['obs', i, n, 'again'] for n in rng.sample(names, 9)]
+            ev += [['obs', i, n, 'again'] for n in names]      # every observer also on the warm object (all are cheap on reactions)
             if rng.random() < 0.6:
                 ev.append(['copy', i])
                 ev += [['obs_copy', i, n, 'copy'] for n in rng.sample(names, 6)]
@@ -388,7 +388,7 @@ def _main(a, scratch):
     core_idx = [k for k, c in enumerate(corpus_all) if c[0] == 'smi' and c[1] in CORE_SMILES] + \
                [k for k, c in enumerate(corpus_all) if c[0] in ('rxnsmi',)][:6] + \
                [k for k, c in enumerate(corpus_all) if c[0] == 'rxnsmi' and (':11]' in c[1] or '[CH2]' in c[1] or '[CH3].' in c[1]
-                                                                             or '[O]' in c[1] or '[CH]' in c[1] or '>N>' in c[1] or '[K+]' in c[1] or 'ClCCl' in c[1])]
+                                                                             or '[O]' in c[1] or '[CH]' in c[1] or '>N>' in c[1] or '[K+]' in c[1] or 'ClCCl' in c[1] or '@' in c[1] or '/' in c[1])]
     first = core_idx + [k for k in special[:n // 4] if k not in set(core_idx)]
     chosen = (first + [k for k in idx if k not in set(first)])[:max(n, len(core_idx) + 40)]
     slice_n = T.get('slice', len(chosen))
